@@ -10,12 +10,12 @@
 (*            what the reference decoder makes of the tree - in particular *)
 (*            accepted iff every identifier string satisfies IdAccept, and *)
 (*            the decoded identifier bytes are the code points;            *)
-(*  roundtrip a message was encoded with to_ws_message: a text frame; the  *)
-(*            reference decoder reads the produced JSON back as the very   *)
-(*            message (so every identifier was written as its 20 code      *)
-(*            points <= U+00FF and no field was lost), and the real        *)
-(*            decoder returns the message from the text frame and from the *)
-(*            same bytes as a binary frame;                                *)
+(*  roundtrip a message was encoded with to_ws_message: a text frame; in    *)
+(*            the produced JSON every identifier of the message is written *)
+(*            as its 20 code points <= U+00FF (nothing else about the text *)
+(*            is prescribed by the property), and the real decoder returns *)
+(*            the message from the text frame and from the same bytes as a *)
+(*            binary frame;                                                *)
 (*  rawbin    a binary frame whose payload is not well-formed UTF-8 is     *)
 (*            not a JSON text: rejected.                                   *)
 (***************************************************************************)
@@ -58,8 +58,7 @@ RoundtripEv ==
     /\ \A b \in Ids(E.msg) : IsBytes20(b)
     /\ E.frame = "text"
     /\ E.enc.t = "o"
-    /\ ResEq(Res(Decode(E.dir, E.enc)), <<"ok", E.msg>>)    \* what was written is the message
-    /\ Unambiguous(E.dir, E.enc)
+    /\ IdsWritten(E.msg, E.enc)                  \* every identifier written as its 20 code points
     /\ ResEq(E.text, <<"ok", E.msg>>)                       \* and the real decoder gives it back
     /\ ResEq(E.bin, <<"ok", E.msg>>)
 
